@@ -196,6 +196,24 @@ func TestVerifC14(t *testing.T) {
 		alphabet = append(alphabet, c14Op{T: "addStream", Pid: pid, S: 10 + pid})
 		alphabet = append(alphabet, c14Op{T: "removeStream", Pid: pid, S: 10 + pid})
 	}
+	// handler life cycles the short enumeration cannot reach: a peer that was idle for a moment (its
+	// only handler returned) gets new handlers, then its last connection closes
+	P := func(pid int) c14Op { return c14Op{T: "addPeer", C: 1, Pid: pid, Peer: peerOf(pid, pid)} }
+	A := func(pid, s int) c14Op { return c14Op{T: "addStream", Pid: pid, S: s} }
+	R := func(pid, s int) c14Op { return c14Op{T: "removeStream", Pid: pid, S: s} }
+	D := func(pid, c int) c14Op { return c14Op{T: "disconnected", C: c, Pid: pid} }
+	L := func(pid int) c14Op { return c14Op{T: "lookup", Pid: pid} }
+	for _, ops := range [][]c14Op{
+		{P(1), A(1, 31), R(1, 31), L(1), A(1, 32), D(1, 1)},
+		{P(1), A(1, 31), A(1, 32), R(1, 31), R(1, 32), A(1, 33), A(1, 34), R(1, 33), D(1, 1)},
+		{P(1), P(2), A(1, 31), A(2, 41), R(1, 31), A(1, 32), D(2, 1), D(1, 1)},
+		{P(1), A(1, 31), R(1, 31), D(1, 1), P(1), A(1, 32), D(1, 1)},
+		{P(1), {T: "addPeer", C: 2, Pid: 1, Peer: peerOf(1, 1)}, A(1, 31), R(1, 31), D(1, 1), A(1, 32), D(1, 2)},
+		{P(1), R(1, 99), A(1, 31), D(1, 1)},
+	} {
+		in := c14In{Tag: "handler-life-cycle", Ops: ops}
+		out.emit(in, map[string]any{"steps": c14Run(in)})
+	}
 	depth := vcount(3, 4)
 	var rec func(prefix []c14Op, d int)
 	rec = func(prefix []c14Op, d int) {
